@@ -42,7 +42,13 @@ func runParallel(fm *Frame, functions ...Callable) error {
 		go func(fm2 *Frame, function Callable, pexc *Exception) {
 			err := function.Call(fm2, NoArgs, NoOpts)
 			if err != nil {
-				*pexc = err.(Exception)
+				// A closure that expects arguments fails with a plain error
+				// rather than an exception.
+				exc, ok := err.(Exception)
+				if !ok {
+					exc = &exception{err, fm2.traceback}
+				}
+				*pexc = exc
 			}
 			wg.Done()
 		}(fm.Fork(), function, &exceptions[i])
